@@ -133,6 +133,17 @@ def generate(rng, tier):
                     s = ",".join(map(str, syms))
                     cases.append(Case(f"syms_rt {level} {method} 1 {s} -", oracle=rt_oracle(syms, 0), flavour="asan", tags=(f"kind:{kind}",)))
                     cases.append(Case(f"syms_enc {level} {method} 1 {s}", tags=(f"kind:{kind}",)))
+    # wide rANS states: raw scheme running with >= 17 precision bits (thousands of distinct symbols, or a few hundred at
+    # level 10), where the final coder state needs the four-byte tail (state - base >= 2^26 for a good share of inputs)
+    for it in range(24 if thorough else 8):
+        level, ndist = rng.choice([("10", 700), ("10", 1500), ("7", 2600), ("8", 1300), ("5", 5000), ("-", 2600), ("0", 9000)])
+        pool = rng.sample(range(1 << 14), ndist)
+        syms = pool + [rng.choice(pool) for _ in range(rng.choice([0, ndist // 3, ndist]))]
+        rng.shuffle(syms)
+        s = ",".join(map(str, syms))
+        for method in ("1", "-"):
+            cases.append(Case(f"syms_rt {level} {method} 1 {s} -", oracle=rt_oracle(syms, 0), flavour="asan", tags=("kind:wide_state", f"method:{method}")))
+        cases.append(Case(f"syms_enc {level} 1 1 {s}", tags=("kind:wide_state",)))
     if thorough:
         # every value below 2^18 present (2^18 distinct symbols), 20 times each: the automatic selection prefers
         # the raw scheme (its estimate wins from about 16*2^18 values on) and EncodeRawSymbols then reports failure
